@@ -471,13 +471,42 @@ Qed.
 Definition dom' (dpre : list space) pindex nbin pdvol (dpost : list space) : list space :=
   dpre ++ pspace R r0 r1 radd rmul pindex nbin pdvol :: dpost.
 
+(* Field.weight(power, spaces=idx) *)
+Lemma weight_at_length neg d idx a : length (weight_at R r0 r1 rmul rinv neg d idx a) = length a.
+Proof.
+  unfold weight_at. destruct (nth_error d idx) as [s|]; [|reflexivity].
+  destruct (sdv s); rewrite map_length; [reflexivity|apply mul_axis_length].
+Qed.
+
+Lemma weight_at_scalar neg dpre s dpost v a t :
+  sdv s = Scalar v -> t < length a ->
+  get (weight_at R r0 r1 rmul rinv neg (dpre ++ s :: dpost) (length dpre) a) t = get a t * pw neg (r1 * v).
+Proof.
+  intros Hs Ht. unfold weight_at. destruct (split_facts dpre s dpost) as (E1 & _ & _).
+  rewrite E1, Hs. rewrite get_map by exact Ht. reflexivity.
+Qed.
+
+Lemma weight_at_perpix neg dpre s dpost w a i1 j i3 :
+  sdv s = PerPix w -> length a = (prodsz dpre * ssize s * prodsz dpost)%nat ->
+  i1 < prodsz dpre -> j < ssize s -> i3 < prodsz dpost ->
+  get (weight_at R r0 r1 rmul rinv neg (dpre ++ s :: dpost) (length dpre) a) (idx3 (ssize s) (prodsz dpost) i1 j i3)
+  = get a (idx3 (ssize s) (prodsz dpost) i1 j i3) * pw neg (get w j) * pw neg r1.
+Proof.
+  intros Hs HL H1 Hj H3. unfold weight_at. destruct (split_facts dpre s dpost) as (E1 & _ & E3).
+  rewrite E1, Hs, E3.
+  assert (Ht : idx3 (ssize s) (prodsz dpost) i1 j i3 < length a) by (rewrite HL; apply idx3_lt; assumption).
+  rewrite get_map by (rewrite mul_axis_length; exact Ht).
+  unfold mul_axis. rewrite get_map_seq by exact Ht.
+  destruct (idx3_decode (ssize s) (prodsz dpost) i1 j i3 Hj H3) as (_ & E2 & _). rewrite E2. reflexivity.
+Qed.
+
 Lemma single_unfold dpre s dpost pdvol pindex nbin x :
   sdv s = Scalar pdvol -> length pindex = ssize s -> bins_ok pindex nbin ->
   single (dpre ++ s :: dpost) (length dpre) pindex nbin x
   = Some (dom' dpre pindex nbin pdvol dpost,
-          weight R r0 r1 rmul rinv true (dom' dpre pindex nbin pdvol dpost)
+          weight_at R r0 r1 rmul rinv true (dom' dpre pindex nbin pdvol dpost) (length dpre)
             (dist_adjoint R r0 radd (prodsz dpre) (ssize s) (prodsz dpost) nbin pindex
-               (weight R r0 r1 rmul rinv false (dpre ++ s :: dpost) x))).
+               (weight_at R r0 r1 rmul rinv false (dpre ++ s :: dpost) (length dpre) x))).
 Proof.
   intros Hs HL Hb. unfold single_power_analyze, pd_adjoint.
   destruct (split_facts dpre s dpost) as (E1 & E2 & E3).
@@ -494,42 +523,34 @@ Lemma single_formula dpre s dpost pdvol pindex nbin x i1 b i3 :
     length y = (prodsz dpre * nbin * prodsz dpost)%nat /\
     get y (idx3 nbin (prodsz dpost) i1 b i3)
     = Sum (ssize s) (fun j => if nth j pindex 0%nat =? b
-                               then get x (idx3 (ssize s) (prodsz dpost) i1 j i3)
-                                    * (pfac false dpre i1 * pfac false dpost i3)
-                                    * (sfac dpre * (pdvol * sfac dpost))
+                               then get x (idx3 (ssize s) (prodsz dpost) i1 j i3) * (r1 * pdvol)
                                else r0)
-      * (pfac true dpre i1 * rinv (ofn (nth b (rho pindex nbin) 0%nat) * pdvol) * pfac true dpost i3)
-      * rinv (sfac dpre * sfac dpost).
+      * rinv (ofn (nth b (rho pindex nbin) 0%nat) * pdvol)
+      * rinv r1.
 Proof.
   intros Hs HL Hb Hx H1 Hbb H3.
   eexists. split; [apply single_unfold; eassumption|].
-  set (d := dpre ++ s :: dpost). set (d' := dom' dpre pindex nbin pdvol dpost).
   set (pre := prodsz dpre) in *. set (post := prodsz dpost) in *. set (n := ssize s) in *.
   assert (Hlen : length x = (pre * n * post)%nat).
-  { rewrite Hx. unfold d. rewrite prodsz_app, prodsz_cons. fold pre post n. lia. }
+  { rewrite Hx. rewrite prodsz_app, prodsz_cons. fold pre post n. lia. }
   split.
-  { rewrite weight_length, dist_adjoint_length. reflexivity. }
+  { rewrite weight_at_length, dist_adjoint_length. reflexivity. }
   destruct Hb as [Hall Hne].
-  rewrite weight_get by (rewrite dist_adjoint_length; apply idx3_lt; assumption).
-  rewrite dist_adjoint_get by assumption.
-  (* the outer weights *)
   pose proof (pspace_dvol_get pindex nbin pdvol b Hall Hbb) as Hdv.
-  assert (Hsz' : ssize (pspace R r0 r1 radd rmul pindex nbin pdvol) = nbin) by reflexivity.
-  unfold d', dom'.
-  pose proof (pfac_block true dpre (pspace R r0 r1 radd rmul pindex nbin pdvol) dpost i1 b i3) as PB.
-  rewrite Hsz' in PB. fold post in PB. rewrite PB by assumption. clear PB.
-  cbn [sdv pspace] in Hdv |- *.
-  destruct Hdv as [Hg _].
-  assert (Esf' : sfac (dpre ++ pspace R r0 r1 radd rmul pindex nbin pdvol :: dpost) = sfac dpre * sfac dpost).
-  { rewrite sfac_app. reflexivity. }
-  rewrite Esf'. simpl pw. rewrite Hg.
-  f_equal. f_equal.
-  apply Sum_ext. intros j Hj.
+  unfold dom'.
+  set (s' := pspace R r0 r1 radd rmul pindex nbin pdvol) in *.
+  assert (Hsz' : ssize s' = nbin) by reflexivity.
+  destruct (sdv s') as [v|w] eqn:Edv; [contradiction|]. destruct Hdv as [Hg _].
+  pose proof (weight_at_perpix true dpre s' dpost w
+                (dist_adjoint R r0 radd pre n post nbin pindex
+                   (weight_at R r0 r1 rmul rinv false (dpre ++ s :: dpost) (length dpre) x)) i1 b i3 Edv) as W.
+  rewrite Hsz' in W. fold pre post in W. rewrite W; try assumption.
+  2:{ rewrite dist_adjoint_length. reflexivity. }
+  clear W. rewrite dist_adjoint_get by assumption. simpl pw. rewrite Hg.
+  f_equal. f_equal. apply Sum_ext. intros j Hj.
   destruct (nth j pindex 0%nat =? b); [|reflexivity].
-  rewrite weight_get by (rewrite Hlen; apply idx3_lt; assumption).
-  unfold d. pose proof (pfac_block false dpre s dpost i1 j i3 Hj H3) as PB.
-  fold post n in PB. rewrite PB. rewrite Hs.
-  rewrite sfac_app. simpl sfac. rewrite Hs. simpl pw. ring.
+  rewrite (weight_at_scalar false dpre s dpost pdvol x _ Hs) by (rewrite Hlen; apply idx3_lt; assumption).
+  reflexivity.
 Qed.
 
 Definition rho_ok (pindex : list nat) (nbin : nat) : Prop :=
@@ -538,7 +559,7 @@ Definition rho_ok (pindex : list nat) (nbin : nat) : Prop :=
 (* analysis = bin mean *)
 Lemma single_mean dpre s dpost pdvol pindex nbin x i1 b i3 :
   sdv s = Scalar pdvol -> length pindex = ssize s -> bins_ok pindex nbin -> rho_ok pindex nbin ->
-  dvol_ok dpre -> dvol_ok dpost -> pdvol <> r0 ->
+  pdvol <> r0 ->
   length x = prodsz (dpre ++ s :: dpost) ->
   i1 < prodsz dpre -> b < nbin -> i3 < prodsz dpost ->
   exists y, single (dpre ++ s :: dpost) (length dpre) pindex nbin x = Some (dom' dpre pindex nbin pdvol dpost, y) /\
@@ -548,17 +569,13 @@ Lemma single_mean dpre s dpost pdvol pindex nbin x i1 b i3 :
                                then get x (idx3 (ssize s) (prodsz dpost) i1 j i3) else r0)
       * rinv (ofn (nth b (rho pindex nbin) 0%nat)).
 Proof.
-  intros Hs HL Hb Hr Hpre Hpost Hpd Hx H1 Hbb H3.
+  intros Hs HL Hb Hr Hpd Hx H1 Hbb H3.
   destruct (single_formula dpre s dpost pdvol pindex nbin x i1 b i3 Hs HL Hb Hx H1 Hbb H3) as (y & E & Ly & G).
   exists y. split; [exact E|]. split; [exact Ly|]. rewrite G. clear G E.
-  set (K := pfac false dpre i1 * pfac false dpost i3 * (sfac dpre * (pdvol * sfac dpost))).
   rewrite (Sum_ext _ _ (fun j => (if nth j pindex 0%nat =? b
-                                  then get x (idx3 (ssize s) (prodsz dpost) i1 j i3) else r0) * K)).
-  2:{ intros j _. destruct (nth j pindex 0%nat =? b); unfold K; ring. }
-  rewrite Sum_scale. unfold K.
-  destruct (pfac_inv dpre i1 Hpre) as [N1 ->]. destruct (pfac_inv dpost i3 Hpost) as [N2 ->].
-  pose proof (sfac_nonzero dpre Hpre). pose proof (sfac_nonzero dpost Hpost).
-  specialize (Hr b Hbb).
+                                  then get x (idx3 (ssize s) (prodsz dpost) i1 j i3) else r0) * (r1 * pdvol))).
+  2:{ intros j _. destruct (nth j pindex 0%nat =? b); ring. }
+  rewrite Sum_scale. specialize (Hr b Hbb). pose proof r1_nonzero.
   field. repeat split; assumption.
 Qed.
 
@@ -585,25 +602,25 @@ Qed.
 (* exactness of one analysis step: analysing a distributed field returns the field *)
 Lemma single_exact dpre s dpost pdvol pindex nbin y :
   sdv s = Scalar pdvol -> length pindex = ssize s -> bins_ok pindex nbin -> rho_ok pindex nbin ->
-  dvol_ok dpre -> dvol_ok dpost -> pdvol <> r0 ->
+  pdvol <> r0 ->
   length y = (prodsz dpre * nbin * prodsz dpost)%nat ->
   single (dpre ++ s :: dpost) (length dpre) pindex nbin
          (dist_times R r0 (prodsz dpre) (ssize s) (prodsz dpost) nbin pindex y)
   = Some (dom' dpre pindex nbin pdvol dpost, y).
 Proof.
-  intros Hs HL Hb Hr Hpre Hpost Hpd Hy.
+  intros Hs HL Hb Hr Hpd Hy.
   rewrite (single_unfold dpre s dpost pdvol pindex nbin _ Hs HL Hb).
   f_equal. f_equal.
   apply (nth_ext _ _ r0 r0).
-  { rewrite weight_length, dist_adjoint_length. symmetry. exact Hy. }
-  intros t Ht. rewrite weight_length, dist_adjoint_length in Ht.
+  { rewrite weight_at_length, dist_adjoint_length. symmetry. exact Hy. }
+  intros t Ht. rewrite weight_at_length, dist_adjoint_length in Ht.
   destruct (idx3_encode _ _ _ t Ht) as (Et & H1 & Hbb & H3).
   set (i1 := (t / prodsz dpost / nbin)%nat) in *. set (b := ((t / prodsz dpost) mod nbin)%nat) in *.
   set (i3 := (t mod prodsz dpost)%nat) in *.
   assert (Hx : length (dist_times R r0 (prodsz dpre) (ssize s) (prodsz dpost) nbin pindex y)
                = prodsz (dpre ++ s :: dpost)).
   { rewrite dist_times_length, prodsz_app, prodsz_cons. lia. }
-  destruct (single_mean dpre s dpost pdvol pindex nbin _ i1 b i3 Hs HL Hb Hr Hpre Hpost Hpd Hx H1 Hbb H3)
+  destruct (single_mean dpre s dpost pdvol pindex nbin _ i1 b i3 Hs HL Hb Hr Hpd Hx H1 Hbb H3)
     as (y' & E & _ & G).
   rewrite (single_unfold dpre s dpost pdvol pindex nbin _ Hs HL Hb) in E.
   injection E as E. rewrite E. rewrite Et. fold (get y' (idx3 nbin (prodsz dpost) i1 b i3)). rewrite G.
@@ -636,6 +653,7 @@ Fixpoint specs_ok (d : list space) (specs : list spec) : Prop :=
       | Some s =>
           match sdv s with
           | Scalar pdvol =>
+              pdvol <> r0 /\
               length pindex = ssize s /\ bins_ok pindex nbin /\ rho_ok pindex nbin /\ 0 < nbin /\
               specs_ok (dom_after d idx pindex nbin) rest
           | PerPix _ => False
@@ -682,7 +700,7 @@ Proof.
   induction specs as [|[idx [pindex nbin]] rest IH]; intros d p Hok Hp; simpl in *; [exact Hp|].
   destruct (nth_error d idx) as [s|] eqn:E; [|contradiction].
   destruct (sdv s) as [pdvol|] eqn:Hs; [|contradiction].
-  destruct Hok as (HL & Hb & Hr & Hnb & Hrest).
+  destruct Hok as (Hpd & HL & Hb & Hr & Hnb & Hrest).
   destruct (spec_split d idx s pdvol pindex nbin E Hs) as (dpre & dpost & Ed & Ei & Ea).
   unfold pd_times. rewrite dist_times_length. subst d idx.
   destruct (split_facts dpre s dpost) as (_ & E2 & E3). rewrite E2, E3, HL.
@@ -691,23 +709,20 @@ Qed.
 
 (* C10_analyze_exact *)
 Lemma analyze_exact specs : forall d p,
-  dvol_ok d -> specs_ok d specs -> length p = prodsz (doms_after d specs) ->
+  specs_ok d specs -> length p = prodsz (doms_after d specs) ->
   analyze d specs (distribute d specs p) = Some (doms_after d specs, p).
 Proof.
-  induction specs as [|[idx [pindex nbin]] rest IH]; intros d p Hd Hok Hp; [reflexivity|].
+  induction specs as [|[idx [pindex nbin]] rest IH]; intros d p Hok Hp; [reflexivity|].
   cbn [analyze_spaces distribute_spaces doms_after]. cbn [doms_after] in Hp. simpl in Hok.
   destruct (nth_error d idx) as [s|] eqn:E; [|contradiction].
   destruct (sdv s) as [pdvol|] eqn:Hs; [|contradiction].
-  destruct Hok as (HL & Hb & Hr & Hnb & Hrest).
+  destruct Hok as (Hpd & HL & Hb & Hr & Hnb & Hrest).
   destruct (spec_split d idx s pdvol pindex nbin E Hs) as (dpre & dpost & Ed & Ei & Ea).
   pose proof (distribute_length rest _ p Hrest Hp) as Hlen.
   rewrite Ea in *. subst d idx.
   unfold pd_times. destruct (split_facts dpre s dpost) as (_ & E2 & E3). rewrite E2, E3, HL.
-  assert (Hd' := Hd). unfold dvol_ok in Hd'. apply Forall_app in Hd'. destruct Hd' as [Hpre Hd'].
-  inversion Hd' as [|? ? Hs1 Hpost]; subst. destruct Hs1 as [_ Hv]. rewrite Hs in Hv.
-  rewrite (single_exact dpre s dpost pdvol pindex nbin _ Hs HL Hb Hr Hpre Hpost Hv).
-  - apply IH; [|exact Hrest|exact Hp].
-    apply (dvol_ok_after dpre s dpost pdvol pindex nbin Hs Hb Hr Hnb Hd).
+  rewrite (single_exact dpre s dpost pdvol pindex nbin _ Hs HL Hb Hr Hpd).
+  - apply IH; [exact Hrest|exact Hp].
   - rewrite Hlen. apply prodsz_dom'.
 Qed.
 
@@ -743,14 +758,14 @@ Proof.
   match type of Ex with _ = Some (_, ?a) => set (ax := a) in * end.
   match type of Ey with _ = Some (_, ?a) => set (ay := a) in * end.
   assert (Lx : length ax = (prodsz dpre * nbin * prodsz dpost)%nat)
-    by (unfold ax; rewrite weight_length, dist_adjoint_length; reflexivity).
+    by (unfold ax; rewrite weight_at_length, dist_adjoint_length; reflexivity).
   assert (Ly : length ay = (prodsz dpre * nbin * prodsz dpost)%nat)
-    by (unfold ay; rewrite weight_length, dist_adjoint_length; reflexivity).
+    by (unfold ay; rewrite weight_at_length, dist_adjoint_length; reflexivity).
   rewrite prodsz_dom'. split; [|split; assumption].
   rewrite Exy. f_equal. f_equal.
   apply (nth_ext _ _ r0 r0).
-  { rewrite weight_length, dist_adjoint_length, vadd_length; lia. }
-  intros t Ht. rewrite weight_length, dist_adjoint_length in Ht.
+  { rewrite weight_at_length, dist_adjoint_length, vadd_length; lia. }
+  intros t Ht. rewrite weight_at_length, dist_adjoint_length in Ht.
   destruct (idx3_encode _ _ _ t Ht) as (Et & H1 & Hbb & H3).
   set (i1 := (t / prodsz dpost / nbin)%nat) in *. set (b := ((t / prodsz dpost) mod nbin)%nat) in *.
   set (i3 := (t mod prodsz dpost)%nat) in *.
@@ -760,9 +775,9 @@ Proof.
   destruct (single_formula dpre s dpost pdvol pindex nbin (vadd x y) i1 b i3 Hs HL Hb Hxy H1 Hbb H3) as (zz & Zz & _ & Gz).
   rewrite Ex in Zx. rewrite Ey in Zy. rewrite Exy in Zz.
   injection Zx as Zx. injection Zy as Zy. injection Zz as Zz.
-  fold (get (weight R r0 r1 rmul rinv true (dom' dpre pindex nbin pdvol dpost)
+  fold (get (weight_at R r0 r1 rmul rinv true (dom' dpre pindex nbin pdvol dpost) (length dpre)
      (dist_adjoint R r0 radd (prodsz dpre) (ssize s) (prodsz dpost) nbin pindex
-        (weight R r0 r1 rmul rinv false (dpre ++ s :: dpost) (vadd x y)))) t).
+        (weight_at R r0 r1 rmul rinv false (dpre ++ s :: dpost) (length dpre) (vadd x y)))) t).
   fold (get (vadd ax ay) t).
   rewrite vadd_get by lia. rewrite Zz. rewrite Et. rewrite Gz.
   fold ax in Zx. fold ay in Zy. rewrite Zx, Zy. rewrite Gx, Gy.
@@ -788,7 +803,7 @@ Proof.
   - cbn [analyze_spaces doms_after]. simpl in Hok.
     destruct (nth_error d idx) as [s|] eqn:E; [|contradiction].
     destruct (sdv s) as [pdvol|] eqn:Hs; [|contradiction].
-    destruct Hok as (HL & Hb & Hr & Hnb & Hrest).
+    destruct Hok as (Hpd & HL & Hb & Hr & Hnb & Hrest).
     destruct (spec_split d idx s pdvol pindex nbin E Hs) as (dpre & dpost & Ed & Ei & Ea).
     rewrite Ea in *. subst d idx.
     destruct (single_add dpre s dpost pdvol pindex nbin x y Hs HL Hb Hnb Hx Hy)
@@ -824,20 +839,20 @@ Lemma real_no_phase d specs a : panalyze d specs true (FReal a) = None.
 Proof. destruct specs; reflexivity. Qed.
 
 Lemma panalyze_exact_real d specs a p :
-  specs <> [] -> dvol_ok d -> specs_ok d specs -> length p = prodsz (doms_after d specs) ->
+  specs <> [] -> specs_ok d specs -> length p = prodsz (doms_after d specs) ->
   sq a = distribute d specs p ->
   panalyze d specs false (FReal a) = Some (doms_after d specs, FReal p).
 Proof.
-  intros Hne Hd Hok Hp E. destruct specs as [|sp rest]; [contradiction|].
+  intros Hne Hok Hp E. destruct specs as [|sp rest]; [contradiction|].
   unfold power_analyze. rewrite E. rewrite analyze_exact by assumption. reflexivity.
 Qed.
 
 Lemma panalyze_exact_cplx d specs re im p :
-  specs <> [] -> dvol_ok d -> specs_ok d specs -> length p = prodsz (doms_after d specs) ->
+  specs <> [] -> specs_ok d specs -> length p = prodsz (doms_after d specs) ->
   vadd (sq re) (sq im) = distribute d specs p ->
   panalyze d specs false (FCplx re im) = Some (doms_after d specs, FReal p).
 Proof.
-  intros Hne Hd Hok Hp E. destruct specs as [|sp rest]; [contradiction|].
+  intros Hne Hok Hp E. destruct specs as [|sp rest]; [contradiction|].
   unfold power_analyze. rewrite E. rewrite analyze_exact by assumption. reflexivity.
 Qed.
 
